@@ -134,6 +134,29 @@ fn res<T, E: std::fmt::Debug>(r: Result<T, E>, f: impl Fn(&T) -> String) -> Stri
     }
 }
 
+thread_local! {
+    static VFS_RESP: std::cell::RefCell<Vec<u8>> = std::cell::RefCell::new(vec![]);
+    static VFS_LOG: std::cell::RefCell<Vec<String>> = std::cell::RefCell::new(vec![]);
+}
+fn vfs_read(path: &str) -> Result<Vec<u8>, Box<dyn std::error::Error + Send + Sync + 'static>> {
+    let n = VFS_LOG.with(|l| {
+        l.borrow_mut().push(path.to_string());
+        l.borrow().len() - 1
+    });
+    let r = VFS_RESP.with(|r| r.borrow().get(n).copied().unwrap_or(2));
+    match r {
+        0 => {
+            let f = minimal_tzif(b"", b'2');
+            Ok(f[..54].iter().copied().map(|b| b).collect::<Vec<u8>>()).map(|mut v: Vec<u8>| {
+                v[4] = 0;
+                v
+            })
+        }
+        1 => Ok(b"garbage, not a TZif file".to_vec()),
+        _ => Err("unreadable".into()),
+    }
+}
+
 fn minimal_tzif(footer: &[u8], version: u8) -> Vec<u8> {
     // v1 block: 0 transitions, 1 type (UTC), charcnt 4 ("UTC\0"); then the same as v2+ block, then footer "\n<footer>\n"
     let mut out = vec![];
@@ -278,6 +301,100 @@ fn run(line: &str) -> String {
             },
             Err(e) => format!("err parse:{}", e),
         },
+        "c17" => match zone(&mut t) {
+            // both instantiations of the search on the same input; the buffer is pre-filled with stale sentinel entries
+            Ok(z) => match TimeZoneRef::new(&z.tr, &z.ty, &z.ls, &z.rule) {
+                Ok(r) => {
+                    let (y, mo, d, h, mi, s, ns, blen): (i32, u8, u8, u8, u8, u8, u32, usize) = (t.n(), t.n(), t.n(), t.n(), t.n(), t.n(), t.n(), t.n());
+                    let sentinel = Some(FoundDateTimeKind::Normal(DateTime::from_timespec_and_local(424242, 7, LocalTimeType::utc()).unwrap()));
+                    let mut buf = vec![sentinel; blen];
+                    let a = DateTime::find(y, mo, d, h, mi, s, ns, r);
+                    let b = DateTime::find_n(&mut buf, y, mo, d, h, mi, s, ns, r);
+                    match (a, b) {
+                        (Ok(a), Ok(b)) => {
+                            let v = a.clone().into_inner();
+                            let k = v.len();
+                            let w = k.min(blen);
+                            let mut diff = vec![];
+                            if b.count() != k {
+                                diff.push(format!("count {} != {}", b.count(), k));
+                            }
+                            if b.data().len() != w {
+                                diff.push(format!("data len {} != {}", b.data().len(), w));
+                            }
+                            if b.is_exhaustive() != (blen >= k) {
+                                diff.push(format!("is_exhaustive {} with n={} k={}", b.is_exhaustive(), blen, k));
+                            }
+                            for i in 0..w.min(b.data().len()) {
+                                if b.data()[i] != Some(v[i]) {
+                                    diff.push(format!("entry {} differs", i));
+                                }
+                            }
+                            let inst = |d: Option<DateTime>| d.map(|d| (d.unix_time(), d.local_time_type().ut_offset()));
+                            if blen >= k {
+                                if inst(b.unique()) != inst(a.unique()) {
+                                    diff.push(format!("unique {:?} != {:?}", inst(b.unique()), inst(a.unique())));
+                                }
+                                if inst(b.earliest()) != inst(a.earliest()) {
+                                    diff.push(format!("earliest {:?} != {:?}", inst(b.earliest()), inst(a.earliest())));
+                                }
+                                if inst(b.latest()) != inst(a.latest()) {
+                                    diff.push(format!("latest {:?} != {:?}", inst(b.latest()), inst(a.latest())));
+                                }
+                            }
+                            drop(b);
+                            for i in w..blen {
+                                if buf[i] != sentinel {
+                                    diff.push(format!("slot {} beyond the reported ones was written", i));
+                                }
+                            }
+                            if diff.is_empty() {
+                                format!("ok agree k={}", k)
+                            } else {
+                                format!("DIFF {}", diff.join("; ").replace(' ', "_"))
+                            }
+                        }
+                        (Err(x), Err(y)) => {
+                            if std::mem::discriminant(&x) == std::mem::discriminant(&y) {
+                                "ok agree err".into()
+                            } else {
+                                format!("DIFF errors_{:?}_vs_{:?}", x, y).replace(' ', "")
+                            }
+                        }
+                        (a, b) => format!("DIFF one_fails:{}_{}", a.is_ok(), b.is_ok()),
+                    }
+                }
+                Err(e) => format!("err zone:{:?}", e),
+            },
+            Err(e) => format!("err parse:{}", e),
+        },
+        "resolve" => {
+            // resolve <tz hex> <resp digits: 0 valid file, 1 malformed, 2 unreadable, per read> <dir hex>*   -> class + paths read
+            let tzs = String::from_utf8(unhex(t.s())).unwrap();
+            let resp: Vec<u8> = t.s().bytes().map(|b| b - b'0').collect();
+            let mut dirs: Vec<String> = vec![];
+            loop {
+                let d = t.s();
+                if d.is_empty() {
+                    break;
+                }
+                dirs.push(String::from_utf8(unhex(d)).unwrap());
+            }
+            let dref: Vec<&str> = dirs.iter().map(|s| s.as_str()).collect();
+            VFS_RESP.with(|r| *r.borrow_mut() = resp);
+            VFS_LOG.with(|l| l.borrow_mut().clear());
+            let st = TimeZoneSettings::new(&dref, vfs_read);
+            let r = st.parse_posix_tz(&tzs);
+            let class = match &r {
+                Ok(_) => "Ok".to_string(),
+                Err(tz::Error::Io(_)) => "Io".to_string(),
+                Err(tz::Error::Tz(tz::TzError::TzFile(_))) => "TzFile".to_string(),
+                Err(tz::Error::Tz(tz::TzError::TzString(_))) => "TzString".to_string(),
+                Err(e) => format!("Other:{:?}", e).replace(' ', ""),
+            };
+            let log = VFS_LOG.with(|l| l.borrow().iter().map(|p| hex(p.as_bytes())).collect::<Vec<_>>().join(","));
+            format!("ok {} [{}]", class, log)
+        }
         "tzif" => res(TimeZone::from_tz_data(&unhex(t.s())), |z| format!("{:?}", z).replace(' ', "")),
         "posix" => {
             // posix <hex of TZ string> <ext 0|1>: through a v2 (no extensions) or v3 (extensions) footer of a minimal TZif file
